@@ -124,6 +124,31 @@ def model_spec(kinds=ALL_KINDS, max_terms=6, max_deg=4, coefs=MIXED_COEFS, n_max
     return st.sampled_from(list(kinds)).flatmap(for_kind)
 
 
+# number types: the same numeric values as other members of python's numeric tower.  Everything the oracles do with
+# them (==, float(), + and * with python numbers) is exact for the integer / dyadic values in use.
+CTYPES = ("plain", "plain", "plain", "np", "frac", "npfloat")
+CTYPE = st.sampled_from(CTYPES)
+
+
+def wrap_number(v, ctype):
+    """v as a numpy scalar (np.int64 / np.float64), a fractions.Fraction or unchanged."""
+    if ctype in (None, "plain") or isinstance(v, bool) or not isinstance(v, (int, float)):
+        return v
+    if ctype == "frac":
+        from fractions import Fraction
+        return Fraction(v)
+    import numpy as np
+    if ctype == "np" and (isinstance(v, int) or float(v).is_integer()) and abs(v) < 2 ** 62:
+        return np.int64(int(v))
+    return np.float64(v)
+
+
+def wrap_terms(terms, ctype):
+    if ctype in (None, "plain"):
+        return terms
+    return [[k, wrap_number(v, ctype)] for k, v in terms]
+
+
 def terms_dict(terms):
     """Raw dict from a polynomial spec (later duplicates of the *same* raw key add up)."""
     d = {}
